@@ -42,13 +42,13 @@ WRITERS = {
     'PUSO._create_pubo': ({'_mapping', '_reverse_mapping', '_variables', '_num_binary_variables'},
                           "hands the coupled caches to the temporary PUBO"),
     'PCBO.__init__': (G3, "constructor / copy constructor"),
-    'PCBO.update': ({'_constraints'}, "merges the constraints of another PCBO"),
     'PCBO._append_constraint': ({'_constraints'}, "records a constraint"),
     'PCSO._append_constraint': ({'_constraints'}, "records a constraint (PCSO's copy of the PCBO helper; R03.5 requires it to delegate to or equal PCBO's)"),
     'PCBO._pop_constraint': ({'_constraints'}, "removes the record of a nested constraint"),
     'PCBO._next_ancilla': ({'_ancilla'}, "takes the next ancilla name"),
     'PCBO.__round__': ({'_constraints', '_ancilla'}, "derived model keeps the constraints and the ancilla counter"),
     'PCBO.subs': ({'_constraints', '_ancilla'}, "derived model gets substituted constraints and the ancilla counter"),
+    'PCBO.update': ({'_constraints', '_ancilla'}, "merges the other model's record; the counter is raised to cover the other model's counter"),
     '_pcso._empty_pcbo': ({'_ancilla'}, "seeds the helper's counter"),
     '_info.create_from_info': ({'_ancilla'}, "restores the counter of a serialised model"),
 }
@@ -72,6 +72,38 @@ def _names_bound_to_squash(fn):
     return out
 
 
+def bulk_registration(fn, selfn, field, w):
+    """`X.f |= E` / `X.f.update(E)` with E the labels of some key that are not yet in X.f (`set(D) - X.f`,
+    `{i for i in D if i not in X.f}`): returns (E expanded, D, guarded) or None when the write is not of that form."""
+    from ..astutil import expand_names
+    node, obj, f, kind, detail = w
+    if f != field or obj != selfn:
+        return None
+    if kind == 'aug' and isinstance(detail[0], ast.BitOr):
+        e = detail[1]
+    elif kind == 'call' and detail.func.attr == 'update' and len(detail.args) == 1:
+        e = detail.args[0]
+    else:
+        return None
+    ex = expand_names(fn.node, e)
+    fld = '%s.%s' % (selfn, field)
+    dom, guarded = None, False
+    if isinstance(ex, ast.BinOp) and isinstance(ex.op, ast.Sub) and src(ex.right) == fld:
+        dom, guarded = ex.left, True
+    elif isinstance(ex, ast.Call) and isinstance(ex.func, ast.Attribute) and ex.func.attr == 'difference' and len(ex.args) == 1 \
+            and src(ex.args[0]) == fld:
+        dom, guarded = ex.func.value, True
+    elif isinstance(ex, (ast.SetComp, ast.GeneratorExp, ast.ListComp)) and len(ex.generators) == 1 and src(ex.elt) == src(ex.generators[0].target):
+        gen = ex.generators[0]
+        dom = gen.iter
+        guarded = any((src(gen.target), 'not in', fld) in compare_atoms(c, True) for c in gen.ifs)
+    else:
+        dom = ex
+    if isinstance(dom, ast.Call) and is_name(dom.func, 'set') and len(dom.args) == 1:
+        dom = dom.args[0]
+    return ex, dom, guarded
+
+
 def registration_profile(ctx, fn, field, selfn):
     """For each registration of a label into ``field`` (X.f[i] = .. / X.f.add(i))
     return (node, guards, domain) where guards = set of truthy tests on the
@@ -85,12 +117,16 @@ def registration_profile(ctx, fn, field, selfn):
     for node, obj, f, kind, detail in field_writes(fn.node, {field}):
         if obj != selfn:
             continue
+        bulk = None
         if kind == 'item':
             label = detail[0]
         elif kind == 'call' and detail.func.attr == 'add':
             label = detail.args[0]
         else:
-            continue
+            bulk = bulk_registration(fn, selfn, field, (node, obj, f, kind, detail))
+            if bulk is None:
+                continue
+            label = bulk[1]
         st = enclosing_stmt(node)
         guards = set()
         member_squashed = False
@@ -104,6 +140,13 @@ def registration_profile(ctx, fn, field, selfn):
         # iteration domain: enclosing for loop over ...
         dom = '?'
         p = parent(st)
+        if bulk is not None:
+            names = names_in(bulk[1])
+            if names & squashed_names or any(_squash_call(c) for c in ast.walk(bulk[1])):
+                dom = 'squashed'
+            elif keyp in names:
+                dom = 'raw'
+            p = None
         while p is not None and p is not fn.node:
             if isinstance(p, ast.For) and src(p.target) == src(label):
                 it = p.iter
@@ -157,8 +200,21 @@ def rules(ctx):
     ws = field_writes(fn.node, G2)
     adds = [w for w in ws if w[2] == '_variables' and w[3] == 'call' and w[4].func.attr == 'add']
     incs = [w for w in ws if w[2] == '_num_binary_variables' and w[3] == 'aug']
-    if not adds:
+    bulks = [(w, bulk_registration(fn, selfn, '_variables', w)) for w in ws]
+    bulks = [(w, b) for w, b in bulks if b is not None]
+    if not adds and not bulks:
         raise AnalysisError("PUBOMatrix.__setitem__: no _variables.add registration found")
+    from ..astutil import expand_names as _xn
+    for w, (ex, dom, guarded) in bulks:
+        blk = parent(enclosing_stmt(w[0]))
+        mate = [i for i in incs if parent(enclosing_stmt(i[0])) is blk and isinstance(i[4][0], ast.Add) and
+                isinstance(i[4][1], ast.Call) and is_name(i[4][1].func, 'len') and len(i[4][1].args) == 1 and
+                src(_xn(fn.node, i[4][1].args[0])) == src(ex)]
+        ok = bool(mate) and guarded
+        ctx.inst('R14.3', fn, w[0], ok,
+                 "new labels joined to the set and counted by their number" if ok else
+                 ("the count is not increased by len() of the labels joined to the set in the same block" if not mate else
+                  "the labels joined to the set are not restricted to those not yet in %s._variables: the count can exceed the set" % selfn))
     for node, obj, f, kind, call in adds:
         blk = parent(enclosing_stmt(node))
         lab = src(call.args[0])
@@ -192,7 +248,7 @@ def rules(ctx):
                   "registration not guarded by `%s not in %s._variables`: the count can exceed the set" % (lab, selfn)))
     for node, obj, f, kind, detail in incs:
         blk = parent(enclosing_stmt(node))
-        mate = [w for w in adds if parent(enclosing_stmt(w[0])) is blk]
+        mate = [w for w in adds if parent(enclosing_stmt(w[0])) is blk] + [w for w, b in bulks if parent(enclosing_stmt(w[0])) is blk]
         ctx.inst('R14.3', fn, node, bool(mate),
                  "increment paired with add" if mate else "count incremented without adding the variable")
     for node, obj, f, kind, v in [w for w in ws if w[2] == '_degree' and w[3] == 'assign']:
@@ -210,6 +266,24 @@ def rules(ctx):
         ctx.inst('R14.3', fn, node, ok,
                  "degree grows by max" if ok else "degree assigned without max(self._degree, ...): can shrink "
                  "below the true degree")
+        # ... for every stored term: the only condition on the update is that the value is non-zero (a constant term has
+        # degree 0, above the -inf of an empty model)
+        from ..astutil import expand_names as _xn2
+        gd = cfg_of(fn.node)
+        valp = fn.params[2] if len(fn.params) > 2 else 'value'
+        vt2 = src(_xn2(fn.node, v)) if isinstance(v, ast.AST) else ''
+        extra = []
+        for t_, pol_, o_ in gd.edge_dominators(enclosing_stmt(node)):
+            for a_ in compare_atoms(_xn2(fn.node, t_), pol_):
+                if a_ in (('truthy', valp), (valp, '!=', '0'), ('0', '!=', valp)):
+                    continue
+                if len(a_) == 3 and '%s._degree' % selfn in (a_[0], a_[2]):
+                    continue        # the conditional spelling of max
+                extra.append(a_)
+        ctx.inst('R14.3', fn, 'guards of the degree update', not extra,
+                 "the degree is raised for every non-zero term" if not extra else
+                 "the degree update is skipped under the extra condition %s: a stored term (e.g. the constant, degree 0) "
+                 "can leave the cached degree below the true one" % (extra[:2],))
 
     # caches only grow outside the constructor (upper-bound clause): any
     # shrinking write in a maintained path is a violation
@@ -218,9 +292,10 @@ def rules(ctx):
             continue
         for node, obj, f, kind, detail in field_writes(f_.node, {'_variables', '_num_binary_variables'}):
             if f == '_variables':
-                ok = kind == 'call' and detail.func.attr == 'add'
+                ok = (kind == 'call' and detail.func.attr in ('add', 'update')) or (kind == 'aug' and isinstance(detail[0], ast.BitOr))
             else:
-                ok = kind == 'aug' and isinstance(detail[0], ast.Add) and (const_num(detail[1]) or 0) > 0
+                ok = kind == 'aug' and isinstance(detail[0], ast.Add) and (
+                    (const_num(detail[1]) or 0) > 0 or (isinstance(detail[1], ast.Call) and is_name(detail[1].func, 'len')))
             if not ok:
                 ctx.inst('R14.3', f_, node, False,
                          "%s.%s is written other than by growth (add / += 1) outside the constructor: the "
@@ -256,8 +331,11 @@ def rules(ctx):
                          "%s writes `%s`: the derived model's counter is not self's counter" % (f_.qual, src(node)[:50]))
                 continue
             ok = kind == 'aug' and isinstance(detail[0], ast.Add) and (const_num(detail[1]) or 0) > 0
+            if not ok and kind == 'assign' and isinstance(detail, ast.Call) and is_name(detail.func, 'max') and \
+                    any(src(a_) == '%s.%s' % (obj, f) for a_ in detail.args):
+                ok = True       # X.c = max(X.c, ..): never decreases
             ctx.inst('R14.8', f_, node, ok,
-                     "counter incremented by a positive constant" if ok else
+                     "counter incremented by a positive constant / raised by max" if ok else
                      "counter %s.%s is written other than by a positive increment outside constructors "
                      "and hand-offs: names can repeat" % (obj, f))
     # take => increment in BO.__setitem__
@@ -613,6 +691,30 @@ def record_and_counter_together(ctx, rid):
                      % (fn.qual, obj))
     if not n:
         raise AnalysisError("record_and_counter_together: no wholesale assignment of _constraints found")
+    # merging another model's record into one's own (update): the merged constraints bring their ancillas along, so the
+    # counter must cover the other model's counter as well
+    m = 0
+    for fn in P.all_funcs():
+        if fn.outer is not None:
+            continue
+        ws = [w for w in field_writes(fn.node, {'_constraints'}) if w[3] != 'assign']
+        objs = {w[1] for w in ws}
+        if not objs:
+            continue
+        foreign = sorted({src(x.value) for x in ast.walk(fn.node) if isinstance(x, ast.Attribute) and x.attr == '_constraints'
+                          and isinstance(x.ctx, ast.Load) and src(x.value) not in objs})
+        if not foreign:
+            continue
+        cw = [w for w in field_writes(fn.node, {'_ancilla'}) if w[1] in objs and w[3] in ('assign', 'aug')]
+        for y in foreign:
+            m += 1
+            ok = any(any(isinstance(x, ast.Attribute) and x.attr == '_ancilla' and src(x.value) == y
+                         for x in ast.walk(w[4] if w[3] == 'assign' else w[4][1])) for w in cw)
+            ctx.inst(rid, fn, ws[0][0], ok,
+                     "the record of %s is merged together with its counter" % y if ok else
+                     "%s merges the constraint record of `%s` into %s but leaves the ancilla counter alone: the model then holds "
+                     "the ancilla variables of those constraints while num_ancillas does not count them, and the next constraint "
+                     "added to it uses their names again" % (fn.qual, y, '/'.join(sorted(objs))))
 
 
 def clear_reinit(ctx, rid):
